@@ -169,6 +169,10 @@ class C19:
         ok = fnn is not None and fnn[0] == tags and fnn[1] == ("call", ("attr", encoder, "encode"), (("elem", fnn[2]),), ())
         if ok:
             ctx.ok("R19.2", site, "returns the first non-None encoder.encode(tag) in input order, None on fall-through")
+        elif fnn is None and not [l for l in s.loops.values() if l.kind == "for"] and self.classification_by_models(s) is True:
+            ctx.ok("R19.2", site, "first non-None code in input order, None when no tag is known (interpreted on model tag lists and encoders)")
+        elif fnn is None and not [l for l in s.loops.values() if l.kind == "for"] and self.classification_by_models(s) is None:
+            ctx.undec("R19.2", site, "classification_encoding is written without a loop over its tags and cannot be interpreted on model inputs")
         else:
             ctx.bad("R19.2", self.file, "classification_encoding", "for tag in tags: first hit",
                     "classification_encoding must scan the tags in order and return the first encoder.encode(tag) that is not None "
@@ -182,6 +186,25 @@ class C19:
                 sc = self.scatter_form(s, fname, tags, encoder, val_of, site)
                 if sc is not None:
                     continue
+            def hands_tags_on():
+                """the tags go, whole, into a call the engine could not open (functools.reduce with a step function, a method of a
+                strategy / scheme object, a function picked from a table): the iteration happens where this rule cannot see it"""
+                for e in s.calls:
+                    f_ = e.term[1]
+                    if e.term[0] == "call" and f_ == ("ext", "functools.reduce") and any(x == tags for a in e.term[2] for x in walk(a)):
+                        return True  # a fold over (something derived from) the tags with a step function
+                    if e.term[0] != "call" or not any(a == tags or (a[0] == "call" and a[1] in (("builtin", "list"), ("builtin", "iter")) and a[2] == (tags,))
+                                                      for a in list(e.term[2]) + [v for _, v in e.term[3]]):
+                        continue
+                    if f_ == ("ext", "functools.reduce") or (f_[0] == "attr" and f_[1][0] != "ext" and f_[2] not in ("append", "extend")) \
+                            or f_[0] in ("sub", "lambda", "ite") or (f_[0] == "global" and f_[2] == "func"):
+                        return True
+                return False
+            if (not loops or (len(loops) == 1 and loops[0].iter != tags and not any(x == tags for x in walk(loops[0].iter)))) and hands_tags_on():
+                # no statement loop over the input at all (a reduce / map pipeline, a strategy object, a table of schemes): another
+                # formulation, which this rule cannot read -- not a loop that skips or repeats tags
+                ctx.undec("R19.2", site, f"{fname} has no loop over its tags that the rule can read (the encoding is written in another formulation)")
+                continue
             if len(loops) != 1 or loops[0].iter != tags or loops[0].conds:
                 ctx.bad("R19.2", self.file, fname, "loop over tags", "the encoding must iterate every tag of the input once", s.node.lineno)
                 continue
@@ -209,6 +232,32 @@ class C19:
                         f"{fname} must start from zeros(encoder.num_classes) and only assign encoded[index] = "
                         f"{'1' if val_of is None else 'prediction.score'} where index = encoder.encode(that element's tag) is not None "
                         f"(store ok={good}, zeros={zeros_ok}, returns the array={ret_ok})", s.node.lineno)
+
+    def classification_by_models(self, s):
+        """classification_encoding interpreted (sa/meval.Machine) on every list of up to three tags out of {a, b, c, d} and three
+        model encoders (a -> 0 and b -> 1; only b -> 0; nothing known): the code of the first tag the encoder knows, None otherwise.
+        True / False / None (not interpretable)."""
+        import itertools
+        from types import SimpleNamespace as NS
+        from sa.meval import Machine, ModelRaise
+        from sa.peval import Unknown
+        if getattr(self, "_cls_models", None) is not None:
+            return self._cls_models
+        M = Machine(self.ctx.summ, self.ctx.index)
+        verdict = True
+        try:
+            for table in ({"a": 0, "b": 1}, {"b": 0}, {}):
+                enc = NS(encode=lambda t, _t=table: _t.get(t), num_classes=len(table))
+                for n in range(4):
+                    for tags in itertools.product("abcd", repeat=n):
+                        want = next((table[t] for t in tags if t in table), None)
+                        got = M.apply_summary(s, [list(tags), enc], {}, {})
+                        if got != want:
+                            verdict = False
+        except (Unknown, ModelRaise, RecursionError):
+            verdict = None
+        self._cls_models = verdict
+        return verdict
 
     def scatter_form(self, s, fname, tags, encoder, val_of, site):
         """The vectorised spelling: `encoded = zeros(num_classes); encoded[I] = V; return encoded` with I the list of
@@ -320,7 +369,15 @@ class C19:
             if not m.is_model(ci):
                 return None if ci.has_ext_base("Enum") else f"class {ci.name}"
             if "__hash__" not in ci.methods:
-                return f"model {ci.name} has no __hash__ (unhashable)"
+                import ast as _ast
+                supplied = any(isinstance(st, _ast.Assign) and any(isinstance(t_, _ast.Name) and t_.id == "__hash__" for t_ in st.targets)
+                               and not (isinstance(st.value, _ast.Constant) and st.value.value is None) for st in ci.node.body)
+                try:
+                    supplied = supplied or any(b.module.name.startswith("soundevent") and "__hash__" in b.methods for b in ci.mro()[1:])
+                except Exception:  # noqa: BLE001
+                    pass
+                if not supplied:
+                    return f"model {ci.name} has no __hash__ (unhashable)"
             return None
         if s[0] == "union":
             for x in s[1]:
@@ -371,7 +428,10 @@ class C19:
                 fields = {fname: (f"<{fname}>" if variant == 0 else f"<{fname}#2>") for fname, fi in fm.items() if self.hash_consistent(fi.shape) is None}
                 rec = _Record(ci, fields, False)
                 if assigned:
-                    fn = M.ev(Evaluator(ctx.index, ci.module, assigned[0].value, f"{ci.qual}.<__hash__>", None).ev(assigned[0].value, TRUE), {}, None)
+                    from types import SimpleNamespace as _NS
+                    ev_ = Evaluator(ctx.index, ci.module, assigned[0].value, f"{ci.qual}.<__hash__>", None)
+                    term_ = ev_.ev(assigned[0].value, TRUE)
+                    fn = M.ev(term_, {}, _NS(lambdas=ev_.lambdas, loops=ev_.loops))
                     v1, v2 = fn(rec), fn(_Record(ci, dict(fields), False))
                 else:
                     v1, v2 = M._getattr(rec, "__hash__")(), M._getattr(_Record(ci, dict(fields), False), "__hash__")()
@@ -381,6 +441,12 @@ class C19:
                     return True
                 outs.append(v1)
         except (Unknown, ModelRaise, RecursionError) as e:
+            if "cached property" in str(e):
+                ctx.bad("R19.3", ci.module.relpath, f"{ci.name}.__hash__", "hash through a cached property",
+                        f"the hash of {ci.name} goes through a value that is computed once and kept ({str(e)[:80]}): an instance that is edited, or "
+                        f"copied with an update, after it was first hashed keeps its old hash while it compares equal to a fresh instance with the "
+                        f"new field values -- equal objects, different hashes", line)
+                return True
             ctx.undec("R19.3", site, f"the hash supplied to {ci.name} from outside its body cannot be interpreted on a model instance with exactly the "
                                      f"declared, consistently hashable fields: {str(e)[:120]}")
             return True
@@ -398,6 +464,8 @@ class C19:
                 if self.hash_by_interpretation(ci):
                     n += 1
                 continue
+            if not m.field_map(ci) and any(ci in c_.mro()[1:] for c_ in m.all_models() if c_ is not ci):
+                continue  # a field-less shared base: its __hash__ is judged on every model that inherits it (hash_by_interpretation)
             n += 1
             file = ci.module.relpath
             fn = ci.methods["__hash__"][-1]
